@@ -74,6 +74,28 @@ class C06(core.Prop):
                 picked = rng.sample(on, rng.randint(1, len(on)))
                 ops.append(["write", rng.randrange(len(clients)), devs[d]["name"], vn,
                             [[e["name"], sysgen.write_value(rng, v["kind"])] for e in picked]])
+            if k % 4 == 1:
+                # several writes through one client to ONE property, naming one element each, the device changing the
+                # element written before in between: every write carries what was assigned for it, nothing from earlier ones
+                d = rng.randrange(len(devs))
+                vecs = drvgen.all_vectors(devs[d])
+                many = [vn for vn in sorted(vecs) if vecs[vn][1]["kind"] in ("Text", "Number", "Switch")
+                        and sum(1 for e in vecs[vn][1]["elements"] if e["enabled"]) >= 2]
+                if many:
+                    vn = rng.choice(many)
+                    g, v = vecs[vn]
+                    on = [(i, e) for i, e in enumerate(v["elements"]) if e["enabled"]]
+                    who = rng.randrange(len(clients))
+                    order = list(reversed(on)) if rng.random() < 0.6 else rng.sample(on, len(on))
+                    ops.append(["drv", d, ["engrp", g["key"], True]])
+                    ops.append(["drv", d, ["envec", vn, True]])
+                    prev = None
+                    for i, e in order + order[:1]:
+                        x = "On" if v["kind"] == "Switch" else sysgen.write_value(rng, v["kind"])
+                        ops.append(["write", who, devs[d]["name"], vn, [[e["name"], x]]])
+                        if prev is not None and v["kind"] != "Switch":
+                            ops.append(["drv", d, ["assign", vn, prev, drvgen.random_value(rng, v["kind"])]])
+                        prev = i
             cases.append({"devices": devs, "clients": clients, "ops": ops, "seed": k})
         return cases
 
